@@ -149,6 +149,19 @@ def _observe(ctx, props):
         rm(tr)
 
 
+def _observe_inductive(ctx):
+    """ObserveTyped.tla: bound to Observe.tla by TLC on every transition of MC_Observe (quick and thorough);
+    Apalache shows its invariant inductive and the C14/C15 step properties for a step from ANY state that
+    satisfies it, i.e. for histories of every length (thorough)."""
+    ctx.model_check("MC_ObserveBind", env={"DEPTH": 5 if ctx.thorough else 4, "LIMITS": "012"}, workers=8, timeout=1500, expect_states=5000)
+    if ctx.thorough:
+        ctx.apalache("MC_ObserveInd", "Init", "Inv", 0)
+        ctx.apalache("MC_ObserveInd", "IndInit", "Inv", 1)
+        ctx.apalache("MC_ObserveInd", "IndInit", "StepInv", 1)
+        ctx.apalache("MC_ObserveInd", "IndInit", "SanityState", 1, expect_violation=True)
+        ctx.apalache("MC_ObserveInd", "IndInit", "SanityStep", 1, expect_violation=True)
+
+
 def _observe_server(ctx, props):
     """growth: RFC 7641 end to end over datagrams (ObserveServer.tla)"""
     dev = ctx.build("dev")
@@ -167,11 +180,13 @@ def _observe_server(ctx, props):
 
 def c14(ctx):
     _observe(ctx, {"C14"})
+    _observe_inductive(ctx)
     _observe_server(ctx, {"C14"})
 
 
 def c15(ctx):
     _observe(ctx, {"C15"})
+    _observe_inductive(ctx)
     _observe_server(ctx, {"C15"})
 
 
@@ -181,7 +196,10 @@ OBSERVE_RULE = ("TLC explores every history of register / deregister / notificat
                 "the full state (observer order, tokens, unacknowledged counts, pending ids via the cfg(coap_lite_verif) accessors) "
                 "compared. Seeded random histories of length 200 over larger alphabets, directed long histories at limits 10/254/255 "
                 "and the notification builder are recorded and validated step by step by Trace_Observe. A case is one emitted "
-                "transition (distinct history) or one recorded episode.")
+                "transition (distinct history) or one recorded episode. Beyond the depth bound: ObserveTyped.tla (bound to "
+                "Observe.tla by TLC on every transition, MC_ObserveBind) carries an inductive invariant; in the thorough tier "
+                "Apalache shows it inductive and the C14/C15 step properties for one step from any state satisfying it "
+                "(3 endpoints x 2 tokens x 3 paths), i.e. for histories of every length, with two claims that must be refuted as vacuity guards.")
 
 # ------------------------------------------------------------------------------ C16-C18 link format
 def _link_trace(ctx, what, props, bins):
@@ -361,8 +379,18 @@ def c08(ctx):
         _server(ctx, {"C08"})
 
 
+def _splice(ctx, props):
+    """growth: the public function extending_splice, complete table of MC_Splice replayed"""
+    out = ctx.path("splice.nd")
+    ctx.model_check("MC_Splice", env={"OUT": out}, workers=4, timeout=600, expect_states=300)
+    for b in (ctx.build("dev"), ctx.build("release")):
+        ctx.replay(b, "splice", out, props, label="splice-" + os.path.basename(b))
+    rm(out)
+
+
 def c09(ctx):
     size = "full" if ctx.thorough else "small"
+    _splice(ctx, {"C09"})
     _scripts(ctx, "MC_BlockTransfer", {"MODE": "ul", "SIZE": size}, {"C09"}, "ul")
     # growth: the non-final blocks after block 0 in every order
     _scripts(ctx, "MC_BlockTransfer", {"MODE": "ulperm", "SIZE": "full"}, {"C09"}, "ulperm", bins=(ctx.build("dev"),))
@@ -384,6 +412,7 @@ def c11(ctx):
     size = "full" if ctx.thorough else "small"
     env = {"MODE": "hostile", "SIZE": size, "DEPTH": 2}
     ctx.model_check("MC_BlockMulti", env=env, workers=12, timeout=2400, coverage=False, expect_states=100)
+    _splice(ctx, {"C11"})
     _scripts(ctx, "MC_BlockMulti", {"MODE": "hostile", "SIZE": size, "DEPTH": 2 if ctx.thorough else 1}, {"C11"}, "hostile")
     _block_traces(ctx, ["hostile"], {"C11"})
     _mixed(ctx, {"C11"})
